@@ -305,6 +305,30 @@ def check_surface_case(am, case, with_fault=True):
                 msgs.append("%s: the caller's sizemults were modified" % tag)
             if msgs:
                 return msgs
+    # ---- default multipliers (1, 1, 1), the same object asked for every termination twice: each slab is cut from the untouched rotated cell
+    rc_pos0, rc_vects0, rc_origin0 = rc.atoms.pos.copy(), rc.box.vects.copy(), rc.box.origin.copy()
+    for rnd_ in range(2):
+        for si in range(len(sf.shifts)):
+            system = sf.surface(shiftindex=si)
+            tag = 'default multipliers, call %d, shiftindex=%d' % (rnd_ * len(sf.shifts) + si + 1, si)
+            if system is sf.rcell or system.atoms is sf.rcell.atoms:
+                msgs.append('%s: the returned system is the generator\'s own rotated cell' % tag)
+            if not (np.array_equal(sf.rcell.atoms.pos, rc_pos0) and np.array_equal(sf.rcell.box.vects, rc_vects0) and np.array_equal(sf.rcell.box.origin, rc_origin0)):
+                msgs.append('%s: the rotated cell of the generator was modified by building a slab' % tag)
+            if system.natoms != rc.natoms:
+                msgs.append('%s: %d atoms, expected %d' % (tag, system.natoms, rc.natoms))
+            if not np.allclose(system.box.vects, V, atol=1e-8):
+                msgs.append('%s: cell %r, expected the rotated cell %r' % (tag, system.box.vects.round(4).tolist(), np.asarray(V).round(4).tolist()))
+            y = system.atoms.pos[:, k]
+            lo = system.box.origin[k]
+            gap_lo, gap_hi = y.min() - lo, lo + width - y.max()
+            if gap_lo < 1e-6 or gap_hi < 1e-6 or abs(gap_lo - gap_hi) > 1e-6:
+                msgs.append('%s: the cut is not midway between atomic planes (gaps %.6f below / %.6f above)' % (tag, gap_lo, gap_hi))
+            mis = lattice_mismatch(ucell, (system.atoms.pos - sf.shifts[si]).dot(T), system.atoms.atype)
+            if mis.max() > 1e-6:
+                msgs.append('%s: the system is not the crystal moved by the shift (fractional mismatch %.3g)' % (tag, mis.max()))
+            if msgs:
+                return msgs
     if not with_fault:
         return msgs
     # ---- stacking fault
